@@ -15,9 +15,9 @@ ASSUMPTIONS = ["register bodies may contain . in any position (F12 repaired); ne
                "recorded commands are far shorter than the 4 KiB recording buffer"]
 
 ESC = "\x1b"
-TXT = ["foo", "é日", "a b", "x\ny", "", " ", "bar\x08z", "q\x17w"]
+TXT = ["foo", "é日", "a b", "x\ny", "", " ", "bar\x08z", "q\x17w", "fo\x00ba", "\x00", "a\x16\x00b"]      # (^@ is a key like any other in the record)
 CHANGES = ["x", "3x", "X", "2X", "dd", "2dd", "dw", "2dw", "d$", "D", "dj", "dk", "de", "db", "d0", "J", "3J", "p", "P", "2p", "3P", ">>", "2>>", "<<", ">j",
-           "~", "4~", "g~w", "gUw", "guu", "gUU", "g~~", "rZ", "2rQ", "ré", "yy", "yw", "Y", "2yy", "\"ayy", "\"Ayw", "\"add", "\"ap", "\"bdw", "\"bP", "\"Add",
+           "~", "4~", "g~w", "gUw", "guu", "gUU", "g~~", "rZ", "2rQ", "ré", "r\x00", "yy", "yw", "Y", "2yy", "\"ayy", "\"Ayw", "\"add", "\"ap", "\"bdw", "\"bP", "\"Add",
            "!!tr a-z A-Z\n", "!jsort\n", "!}sed s/^/Q/\n", "dfo", "dta", "d;", "dG", "d}", "d{",
            # operators whose motion prompts for a pattern
            "d/ba\n", "d/o\n", "d?o\n", "y/two\n", "dn", "dN", "2d/o\n"]
